@@ -62,6 +62,46 @@ def tError              : Nat := 5
 def tReject             : Nat := 6
 def tAbort              : Nat := 7
 
+/-! ## constructors, one per PDU type
+
+  What the eight classes' `__init__` + the callers in `appservice.py` fill in.
+  `sw = some (sequenceNumber, windowSize)` makes a segmented PDU.  Every header
+  built here from in-range numbers is well formed (`C07.wf_mk*`) and therefore
+  round-trips (`C07.apci_roundtrip`). -/
+
+namespace Apci
+
+def mkConfirmed (sw : Option (Nat × Nat)) (mor sa : Bool)
+    (maxSegs maxResp invokeID service : Nat) : Apci :=
+  { apduType := 0, seg := some sw.isSome, mor := some mor, sa := some sa,
+    maxSegs := some maxSegs, maxResp := some maxResp, invokeID := some invokeID,
+    seq := sw.map (·.1), win := sw.map (·.2), service := some service }
+
+def mkUnconfirmed (service : Nat) : Apci :=
+  { apduType := 1, service := some service }
+
+def mkSimpleAck (invokeID service : Nat) : Apci :=
+  { apduType := 2, invokeID := some invokeID, service := some service }
+
+def mkComplexAck (sw : Option (Nat × Nat)) (mor : Bool) (invokeID service : Nat) : Apci :=
+  { apduType := 3, seg := some sw.isSome, mor := some mor, invokeID := some invokeID,
+    seq := sw.map (·.1), win := sw.map (·.2), service := some service }
+
+def mkSegmentAck (nak srv : Bool) (invokeID seq win : Nat) : Apci :=
+  { apduType := 4, nak := some nak, srv := some srv, invokeID := some invokeID,
+    seq := some seq, win := some win }
+
+def mkError (invokeID service : Nat) : Apci :=
+  { apduType := 5, invokeID := some invokeID, service := some service }
+
+def mkReject (invokeID reason : Nat) : Apci :=
+  { apduType := 6, invokeID := some invokeID, reason := some reason }
+
+def mkAbort (srv : Bool) (invokeID reason : Nat) : Apci :=
+  { apduType := 7, srv := some srv, invokeID := some invokeID, reason := some reason }
+
+end Apci
+
 /-! ## encoding -/
 
 /-- Python truthiness of a flag attribute (`if self.apduSeg:`). -/
